@@ -970,6 +970,46 @@ PROPS["C14"] = dict(
 )
 
 
+# ---------------------------------------------------------------------------- C16
+def pred_c16(line, st):
+    """signature verifiers against an independent evaluation of the textbook equations"""
+    op, a, r = toks(line)
+    if op == "tsig.dss.verify":
+        a = [x for x in a if not x.startswith("tag:")]
+        p, q, g, y, m, rr, ss = (int(x) for x in a[:7])
+        ok = False
+        if 0 < rr < q and 0 < ss < q:
+            w = pow(ss, -1, q)
+            ok = rr == (pow(g, m * w % q, p) * pow(y, rr * w % q, p) % p) % q
+        st["dss"] = st.get("dss", 0) + 1
+        if r[0] not in ("0", "1"):
+            return "DSS verifier failed with %s" % r[0]
+        if (r[0] == "1") != ok:
+            return "DSS verifier says %s, the standard DSA equation and range conditions say %s (r=%d s=%d)" % (r[0], int(ok), rr, ss)
+        return None
+    if op == "tsig.nts.verify":
+        t = tag_of(a)
+        a = [x for x in a if not x.startswith("tag:")]
+        p, q, g, y, m, c, ss = (int(x) for x in a[:7])
+        log = {}
+        for e in plist(a[7]):
+            k, v = e.split(":")
+            log[bytes.fromhex(k).decode()] = int(v)
+        ok = False
+        if 0 <= ss < q and y % p != 0:
+            R = pow(g, ss, p) * pow(y, -c, p) % p
+            hx = lambda z: ("-" if z < 0 else "") + "%x" % abs(z)
+            key = hx(m) + "|" + hx(R) + "|"
+            ok = key in log and log[key] == c
+        st["nts"] = st.get("nts", 0) + 1
+        if r[0] not in ("0", "1"):
+            return "Schnorr verifier failed with %s" % r[0]
+        if (r[0] == "1") != ok:
+            return "Schnorr verifier says %s, c = H(m, g^s y^-c) with 0 <= s < q says %s (%s)" % (r[0], int(ok), t)
+        return None
+    return None
+
+
 # ---------------------------------------------------------------------------- C17
 def pred_c17(line, st):
     """two-party coin flip, judged on the real library's trace (independent of the Lean model):
@@ -1021,6 +1061,19 @@ def pred_c17(line, st):
     return None
 
 
+PROPS["C16"] = dict(
+    module="TmcgProps.C16",
+    areas=[("tsig", {"quick": 150, "thorough": 4000}, [], "san")],
+    obligations=[("Tmcg.C16.dssVerify_iff", "full"), ("Tmcg.C16.dssVerify_textbook_signature", "full"), ("Tmcg.C16.dssVerify_range", "full"),
+                 ("Tmcg.C16.ntsVerify_iff", "full"), ("Tmcg.C16.ntsVerify_textbook_signature", "full"), ("Tmcg.C16.ntsVerify_range", "full")],
+    predicate=pred_c16,
+    level_text="Theorems in Lean 4: the models of CanettiGennaroJareckiKrawczykRabinDSS::Verify and GennaroJareckiKrawczykRabinNTS::Verify return true exactly on the textbook DSA resp. Schnorr acceptance condition "
+               "(range conditions and verification equation written in ZMod p, independent of the model's routines) for every input, and accept every textbook signature. Correspondence: the real verifiers on textbook "
+               "signatures made by the harness with a known key and on the range-boundary / mutation catalogue (r,s ± q, negated, 0, q, swapped, other key, key outside the group, forged for key 1), compared with the model "
+               "and judged by an independent Python evaluation of the equations. Partial: the threshold SIGNING runs (joint nonce, share combination, agreement of all honest parties) are not covered by this check yet.",
+    level_note=LEVEL_NOTE + " The hash of the Schnorr verifier is an oracle parameter (answers logged from tmcg_mpz_shash).",
+    assumptions=["partial: threshold signing protocols (GJKR NTS Sign, CGJKR DSS Sign) not yet modelled: only the verifiers are decided"],
+)
 PROPS["C17"] = dict(
     module="TmcgProps.C17",
     areas=[("coin", {"quick": 300, "thorough": 6000}, [], "san")],
